@@ -96,17 +96,24 @@ theorem expand_spec {m m' : Matrix} {rr cr : Line Int} (h : m.expandToFitRange r
 theorem isAreaInRange_true {m : Matrix} {ax : Axis} {pr sr : Line Int} (h : m.isAreaInRange ax pr sr = .ok true) :
     ∃ pl sl, (m.trackCounts ax).len = .ok pl ∧ (m.trackCounts ax.other).len = .ok sl ∧
       0 ≤ pr.start ∧ pr.«end» ≤ pl ∧ 0 ≤ sr.start ∧ sr.«end» ≤ sl := by
-  simp only [Matrix.isAreaInRange, bind_eq, bind_eq_ok, pure_eq, i16_eq_ok] at h
-  obtain ⟨pl, hpl, pl16, ⟨q1, _, _⟩, h⟩ := h
+  unfold Matrix.isAreaInRange at h
   split at h
   · cases h
-  · rename_i h1
+  · rename_i h0
     simp only [bind_eq, bind_eq_ok, pure_eq, i16_eq_ok] at h
-    obtain ⟨sl, hsl, sl16, ⟨q2, _, _⟩, h⟩ := h
+    obtain ⟨pl, hpl, pl16, ⟨q1, _, _⟩, h⟩ := h
     split at h
     · cases h
-    · rename_i h2
-      exact ⟨pl, sl, hpl, hsl, by omega, by omega, by omega, by omega⟩
+    · rename_i h1
+      split at h
+      · cases h
+      · rename_i h2
+        simp only [bind_eq, bind_eq_ok, pure_eq, i16_eq_ok] at h
+        obtain ⟨sl, hsl, sl16, ⟨q2, _, _⟩, h⟩ := h
+        split at h
+        · cases h
+        · rename_i h3
+          exact ⟨pl, sl, hpl, hsl, by omega, by omega, by omega, by omega⟩
 
 /-- `mark_area_as`, up to the marking itself: the matrix the cells are written into, and the ranges used -/
 theorem markAreaAs_spec {m m' : Matrix} {ax : Axis} {p s : Line Int} {v : Cell}
